@@ -34,6 +34,8 @@ var tmpls = []vlib.Tmpl{
 	vlib.T("types/ll-i8"), vlib.T("types/ll-u8"), vlib.T("types/ll-str"),
 	// (appended) two nodes below a container at depth three (long common prefixes)
 	vlib.T("plain/l1/cfg/pres"), vlib.T("plain/l1/cfg/mode"),
+	// (appended) nodes of the augmenting module (prefix ve, module name verif-ext) directly below a node of the main module
+	vlib.T("plain/extll"), vlib.T("plain/extleaf"), vlib.T("plain/extc/e2"),
 }
 var uni = &vlib.Universe{Name: "sync", Tmpls: tmpls}
 var palette = []string{"eth1", "eth10", "eth1/1"}
